@@ -325,21 +325,21 @@ func keysOf(m map[string]bool) []string {
 
 func c10Run(c *Ctx) {
 	mustBeDefault(c)
-	c.S.Rule = "cases = (Map, new value, path, sub-keys): every Map template with <= N nodes over keys {a,b,k} (lists, list-in-list, empty containers) x new value {k|b : \"NEW\" | {\"nk\":\"NEW\"}} given as map and as 'key:value[:type]' string x every path of <= 3 steps over {a,b,k,z,*} (both addressing forms) x sub-key sets {none, presence, negated presence, value, typed}; oracle is relational on a deep copy taken before the call: frame, location (against reference addressed set), sub-keys, count, count-copies. Each case under ascending and descending map order; cases with wildcards additionally under every single order deviation (E-choice bound 1) for the smaller Maps. non-trivial = count > 0."
+	c.S.Rule = "cases = (Map, new value, path, sub-keys): every Map template with <= N nodes over keys {a,ab,k} (lists, list-in-list, empty containers) x new value {k|ab : \"NEW\" | {\"nk\":\"NEW\"}} given as map and as 'key:value[:type]' string x every path of <= 3 steps over {a,b,k,z,*} (both addressing forms) x sub-key sets {none, presence, negated presence, value, typed}; oracle is relational on a deep copy taken before the call: frame, location (against reference addressed set), sub-keys, count, count-copies. Each case under ascending and descending map order; cases with wildcards additionally under every single order deviation (E-choice bound 1) for the smaller Maps. non-trivial = count > 0."
 	c.S.Assumptions = []string{"insertion of key k into an addressed map that lacks it is accepted (and counted iff it happens)", "addressed set computed by the reference walker (one-level reading; both readings accepted for list-in-list Maps)", "negated sub-key on absent key: both readings accepted"}
 	n1, n2, ech := 5, 5, 4
 	if c.Thorough {
 		n1, n2, ech = 6, 6, 5
 	}
 	var paths []string
-	seqs([]string{"a", "b", "k", "z", "*"}, 3, func(s []string) { paths = append(paths, strings.Join(s, ".")) })
+	seqs([]string{"a", "ab", "k", "z", "*"}, 3, func(s []string) { paths = append(paths, strings.Join(s, ".")) })
 	type nv struct {
 		key   string
 		val   interface{}
 		asStr string
 	}
 	newVals := []nv{
-		{"k", "NEW", ""}, {"k", map[string]interface{}{"nk": "NEW"}, ""}, {"b", "NEW", ""},
+		{"k", "NEW", ""}, {"k", map[string]interface{}{"nk": "NEW"}, ""}, {"ab", "NEW", ""},
 		{"k", "NEW", "k:NEW"}, {"k", 7.5, "k:7.5:num"}, {"k", true, "k:true:bool"},
 	}
 	explore := func(nodes int, wild bool, f func(ch []int) bool) {
@@ -373,7 +373,7 @@ func c10Run(c *Ctx) {
 			c.S.Nontrivial++
 		}
 	}
-	g := newGen(GenP{Keys: []string{"a", "b", "k"}, MaxList: 3, MaxKeys: 3, EmptyList: true, EmptyMap: true, ListInList: true})
+	g := newGen(GenP{Keys: []string{"a", "ab", "k"}, MaxList: 3, MaxKeys: 3, EmptyList: true, EmptyMap: true, ListInList: true})
 	g.rootMaps(n1, func(t *T) {
 		nodes := countNodes(t)
 		for ni, v := range newVals {
@@ -397,11 +397,31 @@ func c10Run(c *Ctx) {
 			}
 		}
 	})
+	// wide family: more than 32 / 64 addressed values
+	for _, width := range []int{33, 70} {
+		for _, p := range []string{"l.k", "l", "m.*.k", "m.*", "*.k"} {
+			if !c.Mine() {
+				continue
+			}
+			c.S.States++
+			c.S.Evaluations++
+			width := width
+			explore(99, strings.Contains(p, "*"), func(ch []int) bool {
+				wm := map[string]interface{}{}
+				wl := make([]interface{}, width)
+				for i := 0; i < width; i++ {
+					wm[fmt.Sprintf("w%02d", i)] = map[string]interface{}{"k": fmt.Sprintf("m%d", i)}
+					wl[i] = map[string]interface{}{"k": fmt.Sprintf("l%d", i)}
+				}
+				return c10Check(c, map[string]interface{}{"m": wm, "l": wl}, "k", "NEW", "", p, nil, ch)
+			})
+		}
+	}
 	// sub-key family: typed leaves so that value conditions can match
-	g2 := newGen(GenP{Keys: []string{"a", "b", "k"}, MaxList: 3, MaxKeys: 3, EmptyList: false, EmptyMap: true, ListInList: false, Leaves: []interface{}{"s", 1.0}})
-	subsets := [][]string{{"a:*"}, {"!a:*"}, {"a:s"}, {"!a:s"}, {"a:1:num"}, {"b:*"}, {"z:*"}, {"!z:q"}, {"a:s", "b:*"}, {"a:*", "!b:1:num"}, {"!z:*", "a:q"}, {"a:q", "!z:*"}, {"!z:*", "b:*"}}
+	g2 := newGen(GenP{Keys: []string{"a", "ab", "k"}, MaxList: 3, MaxKeys: 3, EmptyList: false, EmptyMap: true, ListInList: false, Leaves: []interface{}{"s", 1.0}})
+	subsets := [][]string{{"a:*"}, {"!a:*"}, {"a:s"}, {"!a:s"}, {"a:1:num"}, {"ab:*"}, {"z:*"}, {"!z:q"}, {"a:s", "ab:*"}, {"a:*", "!ab:1:num"}, {"!z:*", "a:q"}, {"a:q", "!z:*"}, {"!z:*", "ab:*"}}
 	var paths2 []string
-	seqs([]string{"a", "b", "k", "*"}, 2, func(s []string) { paths2 = append(paths2, strings.Join(s, ".")) })
+	seqs([]string{"a", "ab", "k", "*"}, 2, func(s []string) { paths2 = append(paths2, strings.Join(s, ".")) })
 	g2.rootMaps(n2, func(t *T) {
 		nodes := countNodes(t)
 		for _, v := range newVals[:2] {
